@@ -218,16 +218,28 @@ fn front_end(
             .imports()
             .map(|(n, k, id)| (n.to_string(), k, id.is_some()))
             .collect();
-        let shadows = imports.iter().any(|(n, k, explicit)| {
+        // names in play: every import name plus the ids of the interfaces the imports use
+        let mut names_in_play: Vec<(usize, String)> = Vec::new();
+        for (i, (n, k, _)) in imports.iter().enumerate() {
+            names_in_play.push((i, n.clone()));
+            if let wac_types::ItemKind::Instance(id) = k {
+                for used in g.types()[*id].uses.values() {
+                    if let Some(uid) = &g.types()[used.interface].id {
+                        names_in_play.push((i, uid.clone()));
+                    }
+                }
+            }
+        }
+        let shadows = imports.iter().enumerate().any(|(i, (n, k, explicit))| {
             *explicit
                 && n.contains('/')
                 && match k {
                     wac_types::ItemKind::Instance(id) => g.types()[*id].id.as_deref() != Some(n.as_str()),
                     _ => true,
                 }
-                && imports
+                && names_in_play
                     .iter()
-                    .any(|(n2, _, e2)| !*e2 && (n2 == n || wac_types::are_semver_compatible(n, n2)))
+                    .any(|(j, n2)| (*j != i || n2 != n) && (n2 == n || wac_types::are_semver_compatible(n, n2)) && !(*j == i && n2 == n))
         });
         if shadows {
             format!("{tag}:explicit-import-named-like-implicit-interface")
@@ -692,6 +704,19 @@ fn enum_space() -> &'static EnumSpace {
         }
         EnumSpace { cases, files, starts, total }
     })
+}
+
+/// Debug helper: runs the in-memory pipeline on a document against the component library.
+pub fn debug_doc(source: String) -> String {
+    let packages: Vec<(String, Option<Version>, Arc<Vec<u8>>)> = library()
+        .iter()
+        .map(|p| (p.name.to_string(), p.version.and_then(|v| Version::parse(v).ok()), Arc::new(p.bytes.clone())))
+        .collect();
+    match run_process(ProcSpec::new(0x14), move || pipeline_mem(source.into_bytes(), packages, "debug".into())) {
+        Ok(ProcExit::Ok(f)) => format!("{:?} violation={:?}", f.triples.iter().filter(|t| !t.starts_with("decode")).collect::<Vec<_>>(), f.violation),
+        Ok(ProcExit::Panic(p)) => format!("PANIC {}", p.class()),
+        Err(e) => format!("harness: {e}"),
+    }
 }
 
 /// Debug helper: the mutated bytes of an enumeration point (source or package).
